@@ -698,12 +698,22 @@ impl Drop for OsIpcOneShotServer {
 impl OsIpcOneShotServer {
     pub fn new() -> Result<(OsIpcOneShotServer, String), UnixError> {
         unsafe {
-            let fd = libc::socket(libc::AF_UNIX, SOCK_SEQPACKET | SOCK_FLAGS, 0);
             let temp_dir = Builder::new().tempdir()?;
             let socket_path = temp_dir.path().join("socket");
-            let path_string = socket_path.to_str().unwrap();
+            let path_string = socket_path.to_str().unwrap().to_string();
+            let path_c_string = CString::new(path_string.as_str()).unwrap();
 
-            let path_c_string = CString::new(path_string).unwrap();
+            let fd = libc::socket(libc::AF_UNIX, SOCK_SEQPACKET | SOCK_FLAGS, 0);
+            if fd < 0 {
+                return Err(UnixError::last());
+            }
+            // From here on the server object owns the socket and the directory,
+            // so that both are released on the error paths below as well.
+            let server = OsIpcOneShotServer {
+                fd,
+                _temp_dir: temp_dir,
+            };
+
             let (sockaddr, len) = new_sockaddr_un(path_c_string.as_ptr());
             if libc::bind(
                 fd,
@@ -718,13 +728,7 @@ impl OsIpcOneShotServer {
                 return Err(UnixError::last());
             }
 
-            Ok((
-                OsIpcOneShotServer {
-                    fd,
-                    _temp_dir: temp_dir,
-                },
-                path_string.to_string(),
-            ))
+            Ok((server, path_string))
         }
     }
 
@@ -749,9 +753,10 @@ impl OsIpcOneShotServer {
             if client_fd < 0 {
                 return Err(UnixError::last());
             }
+            // The receiver owns the connection from here on (also if an error is returned below).
+            let receiver = OsIpcReceiver::from_fd(client_fd);
             make_socket_lingering(client_fd)?;
 
-            let receiver = OsIpcReceiver::from_fd(client_fd);
             let (data, channels, shared_memory_regions) = receiver.recv()?;
             Ok((receiver, data, channels, shared_memory_regions))
         }
